@@ -10,10 +10,11 @@
 From Coq Require Import List Ascii String ZArith Bool.
 From Shexer Require Import Lib.PyStr Model.Table Model.EntryC20.
 From Shexer Require Import Model.EntryC18.
+From Shexer Require Import Model.EntryC19.
 Import ListNotations.
 
 Definition entries : list (str -> table -> option table) :=
-  [entry_c20; entry_c18].
+  [entry_c20; entry_c18; entry_c19].
 
 Fixpoint dispatch (l : list (str -> table -> option table)) (name : str) (t : table) : table :=
   match l with
